@@ -108,6 +108,12 @@ def _one_run(ctx, case, shared, second=False):
                            case=shared[1] if shared else None,
                            runner_factory=programs.runner_factory_for(case.get("runner")))
     outs = [e for e in log.events if e.name in recorders.OUTCOMES]
+    if not outs and (env.raised or env.tags("detail", "lazy")):
+        # no outcome at all: whatever the run attached or raised reached nobody
+        ctx.check(False, "detail.user-payload-delivered",
+                  {"no outcome was delivered": log.names(), "raised": [(k, t) for k, t, _ in env.raised],
+                   "propagated": repr(run.propagated), "prog": program})
+        return True
     if len(outs) != 1:
         ctx.count("not-exactly-one-outcome (C01's concern)")
         return False
